@@ -2,7 +2,7 @@
 //! of the local crate ("roots").
 
 use crate::json::J;
-use crate::poly::{path_str, ty_str};
+use crate::poly::{dp_str, path_str, ty_str};
 use rustc_hir::def::DefKind;
 use rustc_middle::mir::{Operand, TerminatorKind};
 use rustc_middle::ty::print::with_no_trimmed_paths;
@@ -63,6 +63,7 @@ pub fn walk<'tcx>(tcx: TyCtxt<'tcx>, local: &[String]) -> J {
         n.set("inst", J::s(s.clone()));
         n.set("kind", J::s(kind_str(&inst.def)));
         n.set("def", J::s(path_str(tcx, did)));
+        n.set("dp", J::s(dp_str(tcx, did)));
         n.set("crate", J::s(tcx.crate_name(did.krate).to_string()));
         let mut ga = Vec::new();
         for a in inst.args.iter() {
